@@ -326,8 +326,11 @@ func c03R3(c *Ctx) {
 }
 
 // R4 ---------------------------------------------------------------------------------------------
-func c03R4(c *Ctx) {
-	rule := c.R.Rule("R4", "a refused signature is tolerated: in signAddVote / defaultDecideProposal every sendInternalMessage is edge-dominated by `sign error == nil`, and no no-return call is guarded by `sign error != nil`", 3)
+func c03R4(c *Ctx) { signTolerantRule(c, "R4") }
+
+// signTolerantRule is shared by C03-R4 and C07-R5.
+func signTolerantRule(c *Ctx, id string) {
+	rule := c.R.Rule(id, "a refused signature is tolerated: in signAddVote / defaultDecideProposal every sendInternalMessage is edge-dominated by `sign error == nil`, and no no-return call is guarded by `sign error != nil`", 3)
 	type spec struct{ fn, errFrag string }
 	for _, sp := range []spec{
 		{"gemmill/consensus/pbft.(*ConsensusState).signAddVote", ".signVote("},
